@@ -528,7 +528,7 @@ func solveMany(cxOf map[*Obligation]*Ctx, obls []*Obligation, opt solveOpts) {
 				allTimeouts = false
 			}
 		}
-		if allTimeouts {
+		if allTimeouts && loadFactor() > 1.5 {
 			lf2 := loadFactor()
 			run(again, max(2, opt.par/4), solveOpts{timeout: time.Duration(float64(3*t1) * lf2 / lf), seed: opt.seed + 3, par: 1, cross: false, workDir: opt.workDir})
 			again = undecided()
